@@ -62,7 +62,7 @@ PARTIAL = ['maybe-wrapped argument kinds (m_shape_a ...) are not in the matrix',
            'reference-refusal theorems cover reshape (count mismatch, two unknowns, zero / negative extent), broadcast_shape / broadcast_to '
            '(mismatching axis, rank), matmul (contraction), normalize_axis / repeat / expand_dims (axis out of range, count list length); the refusal of -1 with '
            'a non-dividing count, of concatenate and of a duplicate expand_dims axis are checked by the NumPy oracle only']
-MAX_JOBS = min(6, int(os.environ.get('VERIF_JOBS', '6')))
+MAX_JOBS = min(10, int(os.environ.get('VERIF_JOBS', '10')))
 CASES_PER_TU = 220
 VIEW_WEIGHT = 3
 # compile weight of one case relative to an index-level case (~0.035 s): light views ~0.3 s, broadcasting / contraction views ~1 s
